@@ -98,6 +98,7 @@ type model struct {
 	// bdList: what bd's reflection lists now ("all" | "d1"); bdRegList: what
 	// it listed at its last successful registration
 	bdList, bdRegList string
+	btDead            bool
 }
 
 func newModel() *model {
@@ -126,7 +127,7 @@ func (m *model) live(svc string) map[string]bool {
 
 func (m *model) sig() string {
 	var parts []string
-	for _, s := range []string{"A", "B", "C", "D"} {
+	for _, s := range []string{"A", "B", "C", "D", "T"} {
 		var t []string
 		for k := range m.live(s) {
 			t = append(t, k)
@@ -180,6 +181,7 @@ var methods = []struct{ full, svc string }{
 	{"/vf.rs.A/Get", "A"}, {"/vf.rs.A/Put", "A"}, {"/vf.rs.B/Get", "B"}, {"/vf.rs.C/Get", "C"},
 	{"/vf.rs.D1/Get", "D"}, {"/vf.rs.D2/Get", "D"},
 	{"/vf.rs.A/Extra", "AX"},
+	{"/vf.rs.T/Get", "T"},
 }
 
 // httpSpecs lists the HTTP requests that are requests for a method, at least
@@ -208,6 +210,10 @@ var httpSpecs = map[string][]reqSpec{
 		{Verb: "POST", Path: "/vf.rs.B/Get", Body: `{"a":"k3"}`, Binding: "implicit"},
 		{Verb: "GET", Path: "/rs/b2/k4/5", Binding: "var"},
 		{Verb: "GET", Path: "/cfg/b/k5", Binding: "config"},
+	},
+	"/vf.rs.T/Get": {
+		{Verb: "GET", Path: "/rs/t/k1", Binding: "var"},
+		{Verb: "POST", Path: "/vf.rs.T/Get", Body: `{"a":"k2"}`, Binding: "implicit"},
 	},
 	"/vf.rs.A/Extra": {
 		{Verb: "GET", Path: "/rs/extra/k1", Binding: "var", Want: []string{"a=k1"}},
@@ -329,7 +335,12 @@ type Outcome struct {
 }
 
 func (w *Worker) apply(mux *larking.Mux, op Op) (regErr error, dropped bool, pi *mon.PanicInfo) {
-	ctx, cancel := context.WithTimeout(context.Background(), 15*time.Second)
+	timeout := 15 * time.Second
+	if op.K == "RegConn" && op.B == "bt" && w.btDead {
+		// nothing will answer: do not wait long for the error
+		timeout = 1500 * time.Millisecond
+	}
+	ctx, cancel := context.WithTimeout(context.Background(), timeout)
 	defer cancel()
 	pi = mon.Catch(func() {
 		switch op.K {
@@ -339,6 +350,10 @@ func (w *Worker) apply(mux *larking.Mux, op Op) (regErr error, dropped bool, pi 
 			regErr = mux.RegisterConn(ctx, w.conn(op.B))
 		case "DropConn":
 			dropped = mux.DropConn(ctx, w.conn(op.B))
+		case "Kill":
+			// the back-end's process goes away; nobody tells the mux
+			w.bt.GS.Stop()
+			w.btDead = true
 		case "List":
 			// the back-end starts / stops advertising its second service
 			// (same file, same bytes); the mux is not told
@@ -364,6 +379,9 @@ func (w *Worker) conn(name string) *grpc.ClientConn {
 	if name == "bd2" {
 		return w.bd2.CC
 	}
+	if name == "bt" {
+		return w.bt.CC
+	}
 	return w.env.conn(name)
 }
 
@@ -388,6 +406,12 @@ func (w *Worker) Run(h History, draws int) *Outcome {
 	w.takePanics()
 	w.bd.SetFiles(w.fdD[1])
 	w.bd.SetListed()
+	if w.btDead {
+		if err := w.startT(); err != nil {
+			out.Incon = append(out.Incon, "restart of bt: "+err.Error())
+			return out
+		}
+	}
 	m := newModel()
 	for step, op := range h {
 		regErr, dropped, pi := w.apply(mux, op)
@@ -396,12 +420,22 @@ func (w *Worker) Run(h History, draws int) *Outcome {
 			// the model treats a panicking operation as not having happened
 		} else {
 			switch op.K {
+			case "Kill":
+				m.btDead = true
 			case "List":
 				m.bdList = op.B
 			case "Rev":
 				m.bdRev = map[string]int{"1": 1, "2": 2, "bad": 3}[op.B]
 			case "RegLocal", "RegConn":
 				prov := op.B
+				if prov == "bt" && m.btDead && op.K == "RegConn" {
+					// nothing answers the reflection request: an error, and
+					// whatever was registered stays registered
+					if regErr == nil && !m.conns["bt"] {
+						fail(step, "RegConn-of-dead-backend-returned-nil", "%s returned nil although the back-end is down", op)
+					}
+					break
+				}
 				if prov == "bd" && m.bdRev == 3 && op.K == "RegConn" {
 					// the revision on offer is invalid: refused whether the
 					// connection is new or a refresh, and nothing changes
@@ -465,6 +499,24 @@ func (w *Worker) Run(h History, draws int) *Outcome {
 				continue
 			}
 			live := m.live(md.svc)
+			if md.svc == "T" && m.conns["bt"] && m.btDead {
+				// registered, never dropped, but down: the request belongs to
+				// that back-end and fails there (Unavailable / 503); it must
+				// not be answered as if nothing were registered
+				for i := 0; i < draws; i++ {
+					for _, a := range []answer{w.doHTTP(httpSpecs[md.full][i%2]), w.doGRPC(md.full)} {
+						out.NReq++
+						if ps := w.takePanics(); len(ps) > 0 {
+							fail(step, "down:"+ps[0].Key(), "request for %s panicked inside larking: %s", md.full, ps[0].Value)
+						} else if a.Class == "unimplemented" {
+							fail(step, "registered-backend-down:reported-unimplemented", "request for %s answered Unimplemented/NotFound (%s) although its back-end is registered (it is merely down)", md.full, a.Detail)
+						} else if a.Class == "served" {
+							fail(step, "served-by-dead-backend", "request for %s was served by %q although the only registered back-end is down", md.full, a.Tag)
+						}
+					}
+				}
+				continue
+			}
 			check := func(front, binding string, a answer) {
 				out.NReq++
 				ps := w.takePanics()
